@@ -542,3 +542,9 @@ MUTANTS += [
  {"id": "c06-setsym-not-applied", "prop": "C06", "file": _EC, "old": "        if sym_tensors != self._sym_tensors:\n            self._sym_tensors = sym_tensors\n            self._apply_tensor_braket_sym()", "new": "        if sym_tensors != self._sym_tensors:\n            self._sym_tensors = sym_tensors"},
  {"id": "c06-setsym-forgets-real", "prop": "C06", "file": _EC, "old": "        sym_tensors: set = set(sym_tensors)\n        if self.real:\n            sym_tensors.update([tensor_names.fock, tensor_names.eri])", "new": "        sym_tensors: set = set(sym_tensors)"},
 ]
+MUTANTS += [
+ {"id": "c13-diagfock-drops-exponent", "prop": "C13", "file": _EC, "old": "        diag = Pow(\n            NonSymmetricTensor(tensor_names.orb_energy, (remaining_idx,)),\n            self.exponent\n        )", "new": "        diag = NonSymmetricTensor(tensor_names.orb_energy, (remaining_idx,))"},
+ {"id": "c13-diagfock-substitution-reversed", "prop": "C13", "file": _EC, "old": "        if p is remaining_idx:  # p survived\n            sub[q] = p", "new": "        if p is remaining_idx:  # p survived\n            sub[p] = q"},
+ {"id": "c13-diagfock-energy-of-removed-index", "prop": "C13", "file": _EC, "old": "            NonSymmetricTensor(tensor_names.orb_energy, (remaining_idx,)),\n            self.exponent", "new": "            NonSymmetricTensor(tensor_names.orb_energy, (q,)),\n            self.exponent"},
+ {"id": "c13-diagfock-ignores-given-target", "prop": "C13", "file": _EC, "old": "        result = evaluate_deltas(self.sympy * delta, target_idx=target)\n        if isinstance(result, Mul):  # could not evaluate", "new": "        result = evaluate_deltas(self.sympy * delta)\n        if isinstance(result, Mul):  # could not evaluate"},
+]
